@@ -17,10 +17,14 @@ ENC_URIS = (ENC_DECRYPT, ENC_MISMATCH, ENC_NOCODEC)
 
 VALUES = [None, True, 0, 1, -5, 2 ** 53, "SECRET-alpha", "SECRET-beta with space", ["SECRET-in-list", 1, [2, None]],
           {"k": "SECRET-in-dict", "n": {"m": [1]}}, [], {}, 1.5, "SECRET-\"quoted\"\\", {"$b": "5345435245542d6279746573"},
-          "SECRET-ü€", {"$dt": 1577934245}]
-DT = len(VALUES) - 1                 # the JSON-unserializable value
+          "SECRET-ü€", {"$dt": 1577934245},
+          # JSON-sensitive values (appended: corpus files refer to values by index)
+          "0042", "1E5", "+4915112345", "0", "-0", "1e3", "Infinity", "NaN", " 1", "1_0", "1.0", 1.0, 1e300,
+          ["0042", {"n": "1e3", "SECRET": ["-0"]}], {"1": "0", "0042": 1}, 2 ** 63, -(2 ** 63), ""]
+DT = 16                              # the JSON-unserializable value (a datetime)
+assert VALUES[DT] == {"$dt": 1577934245}
 PLAIN_VALUES = [i for i in range(len(VALUES)) if i != DT]
-KEYS = ["SECRET_k", "a", "SECRET_detail", "x_y"]
+KEYS = ["SECRET_k", "a", "SECRET_detail", "x_y", "1", "0042", "1e3"]
 URIS = ["com.myapp.topic1", "com.myapp.secret.topic", "com.other.x", "com.myapp.proc1", "com.myapp.secret.proc", "com.myappx"]
 ERR_URIS = ["com.myapp.error1", "com.myapp.secret.err", "com.other.error", "wamp.error.runtime_error"]
 
@@ -108,6 +112,7 @@ def gen_scenario(rng, i, lay):
     which = rng.random()
     if kind == "pubsub":
         sc["fault1"] = gen_fault(rng, URIS, uri)
+        sc["handlers"] = [rng.random() < 0.5 for _ in range(rng.choice([1, 2, 2, 3]))]     # details_arg yes/no per handler
     else:
         if which < 0.45:
             sc["fault1"] = gen_fault(rng, URIS, uri)
@@ -146,7 +151,12 @@ def exhaustive_scenarios(ck, lay):
             base = {"layout": name, "ser": ser, "A": A, "B": B, "args": [6, 3], "kwargs": [["SECRET_k", 8]],
                     "detail_uri": False, "fault1": None, "fault2": None}
             fa = {"t": "flip_all", "masks": masks}
-            out.append(dict(base, kind="pubsub", uri="com.myapp.secret.topic", fault1=fa))
+            out.append(dict(base, kind="pubsub", uri="com.myapp.secret.topic", fault1=fa, handlers=[False, True, False]))
+            for t in ("ser", "algo", "trunc", "extend"):
+                out.append(dict(base, kind="pubsub", uri="com.myapp.secret.topic", fault1={"t": t}, handlers=[True, False]))
+            for du in (False, True):
+                out.append(dict(base, kind="pubsub", uri="com.myapp.secret.topic", detail_uri=du,
+                                fault1={"t": "swap", "uri": "com.myapp.topic1"}, handlers=[False, False, True]))
             out.append(dict(base, kind="call", uri="com.myapp.proc1", fault1=fa, result={"args": [7], "kwargs": None, "progress": False}))
             out.append(dict(base, kind="call", uri="com.myapp.proc1", fault2=fa, result={"args": [7, 9], "kwargs": [["a", 6]], "progress": False}))
             out.append(dict(base, kind="call", uri="com.myapp.proc1", fault2=fa, result={"args": [7], "kwargs": None, "progress": True}))
@@ -233,6 +243,8 @@ def cout(o):
     if o[0] == "invoked": return "(XInvoked %s %s)" % (clist(cval(a) for a in o[1]), ckw(o[2]))
     if o[0] == "class": return "(XClass %s %s %s)" % (cN(o[1]), clist(cval(a) for a in o[2]), ckw(o[3]))
     if o[0] == "failed" and isinstance(o[1], str): return "(XFailed %s)" % cstr(o[1])
+    if o[0] == "handlers":
+        return "(XHandlers %s)" % clist("(%s, %s, %s)" % (cN(i), clist(cval(a) for a in aa), ckw(kk)) for i, aa, kk in o[1])
     if o[0] == "ignored": return "XIgnored"
     if o[0] == "notsent": return "XNotSent"
     return None
@@ -251,7 +263,9 @@ def leg_terms(sc, legs):
         enc = "true" if leg["encrypted"] else "false"
         A, B = cring(sc["A"]), cring(sc["B"])
         if leg["leg"] == "publish_event":
-            l = "(LPublishEvent %s %s %s %s %s %s)" % (A, B, cstr(sc["uri"]), clist(cval(a) for a in sc["args"]), ckw(sc["kwargs"]), cfault(sc["fault1"]))
+            l = "(LPublishEvent %s %s %s %s %s %s %s %s)" % (
+                A, B, cstr(sc["uri"]), clist(cval(a) for a in sc["args"]), ckw(sc["kwargs"]), cfault(sc["fault1"]),
+                "true" if sc.get("detail_uri") else "false", clist(cN(i) for i in range(1, len(sc.get("handlers") or [False]) + 1)))
         elif leg["leg"] == "call_invocation":
             call_enc = leg["encrypted"]
             l = "(LCallInvocation %s %s %s %s %s %s)" % (A, B, cstr(sc["uri"]), clist(cval(a) for a in sc["args"]), ckw(sc["kwargs"]), cfault(sc["fault1"]))
@@ -312,6 +326,16 @@ def judge(sc, res):
             rbox = box_of(A, True, env_uri)
             must_encrypt = call_enc and bool(own)          # ... and so do its errors
         where = f"{name}" + ("/progress" if leg.get("progress") else "")
+        nh = len(sc.get("handlers") or [False])
+        if name == "publish_event":
+            # normalise: which handlers of the subscription were invoked, and with what
+            norm = []
+            for o in outs:
+                if o[0] == "handlers":
+                    norm.append(["ignored"] if not o[1] else ["invoked-handlers", o[1]])
+                else:
+                    norm.append(o)
+            outs = norm
         for o in outs:
             if o[0] == "raised":
                 v.append((f"{where}/ESCAPED/{o[1]}", f"{o[1]} escaped from onMessage while handling the {name} message"))
@@ -330,7 +354,11 @@ def judge(sc, res):
         altered = bool(fault) and leg["encrypted"] and not (fault["t"] == "swap" and env_uri == (sc["uri"] if name != "error" else leg.get("error_uri")))
         if altered:
             for o in outs:
-                if o[0] == "class":
+                if o[0] == "invoked-handlers":
+                    which = [h[0] for h in o[1]]
+                    v.append((f"{where}/altered-payload-delivered/{fault['t']}" + ("/later-handler" if 1 not in which else ""),
+                              f"after fault {fault} handler(s) {which} of the subscription ({nh} handlers) were still invoked: {o[1]}"))
+                elif o[0] == "class":
                     v.append((f"{where}/altered-payload-delivered/registered-class",
                               f"after fault {fault} the call failed with an instance of the class registered for the envelope "
                               f"error URI (class C{o[1]}, args {o[2]}, kwargs {o[3]}) instead of an explicit encryption error"))
@@ -344,7 +372,10 @@ def judge(sc, res):
         elif not fault and leg["encrypted"] and sbox != rbox:
             # wrong key / no key / no codec at the receiver
             for o in outs:
-                if o[0] == "class":
+                if o[0] == "invoked-handlers":
+                    v.append((f"{where}/payload-delivered-without-matching-key",
+                              f"the receiver has no matching key (sender secret {sbox}, receiver {rbox}) but handlers ran: {o[1]}"))
+                elif o[0] == "class":
                     v.append((f"{where}/payload-delivered-without-matching-key/registered-class",
                               f"the receiver has no matching key (sender secret {sbox}, receiver {rbox}) but the call failed "
                               f"with an instance of the registered class: {o}"))
@@ -356,6 +387,12 @@ def judge(sc, res):
         elif not fault and leg["encrypted"] and sbox is not None and sbox == rbox:
             want = ["invoked", [a for a in sent[0]], [list(p) for p in sent[1]]]
             got = outs[0]
+            if name == "publish_event":
+                exp = [[i, want[1], want[2]] for i in range(1, nh + 1)]
+                seen_h = got[1] if got[0] == "invoked-handlers" else []
+                if [[h[0], h[1], sorted(map(tuple, h[2]))] for h in seen_h] != [[e[0], e[1], sorted(map(tuple, e[2]))] for e in exp]:
+                    v.append((f"{where}/roundtrip", f"published {want[1:]}, the {nh} handlers of the matching subscriber got {got}"))
+                continue
             if got[0] == "class":               # surfaced as the class the caller registered for the URI: same payload expected
                 got = ["invoked", got[2], got[3]]
             if got[0] != "invoked" or got[1] != want[1] or sorted(map(tuple, got[2])) != sorted(map(tuple, want[2])):
@@ -371,7 +408,9 @@ def run_fw(ck, fw, scs, timeout=3000):
 def run(ck):
     ck.rule.append(
         "scenarios between two real sessions with real PyNaCl keyrings (Twisted and asyncio in separate processes), this "
-        "harness as router/attacker, every hop through a real serializer: 14 keyring layouts (default key, string key, "
+        "harness as router/attacker, every hop through a real serializer; payload values include strings that look "
+        "numeric (0042, 1E5, +49..., -0, NaN, Infinity, ' 1', 1_0), 1.0 vs 1, 2^63, numeric-looking keys, compared by "
+        "exact value AND type; 1-3 event handlers per subscription id with/without details_arg: 14 keyring layouts (default key, string key, "
         "both roles, per-prefix, nested prefixes in two insertion orders, codec on one side only, wrong responder key, "
         "wrong originator public key, role-mismatched material, prefix mismatch, diverging inner prefix) x direction "
         "(publish/event, call/invocation, yield/result final+progressive, error) x fault (none, one flipped octet, URI "
@@ -425,6 +464,8 @@ def run(ck):
                 ck.bump("encrypted:" + str(leg["encrypted"]).lower())
                 for o, cnt in leg["outcomes"]:
                     if o[0] == "class": ck.bump("error-surfaced-as-registered-class", cnt)
+                    if o[0] == "handlers":
+                        ck.bump("event:handlers-invoked=%d/%d" % (len(o[1]), len(sc.get("handlers") or [False])), cnt)
                     ck.bump("outcome:" + (o[0] if o[0] != "failed" else "failed:" + str(o[1]).rsplit(".", 1)[-1]), cnt)
                 if leg.get("n_alterations", 1) > 1:
                     flips += leg["n_alterations"]
